@@ -277,11 +277,11 @@ pub fn c14(tier: Tier) -> i32 {
     report.assume("items are committed before each build, so that the page accounting behind the memory hint is a function of the file");
     let page = 4096usize;
     let mut scenarios = Vec::new();
-    let dims: Vec<usize> = if tier == Tier::Quick { vec![2] } else { vec![2, 130] };
-    let sizes: Vec<usize> = if tier == Tier::Quick { vec![199, 201, 450] } else { vec![199, 200, 201, 250, 450] };
-    let caps_menu: Vec<Option<usize>> = if tier == Tier::Quick { vec![None, Some(220)] } else { vec![None, Some(64), Some(220)] };
-    let trees: Vec<usize> = if tier == Tier::Quick { vec![1] } else { vec![1, 3] };
-    let metrics: Vec<Metric> = if tier == Tier::Quick { vec![Metric::Euclidean] } else { M7.to_vec() };
+    let dims: Vec<usize> = vec![2, 130];
+    let sizes: Vec<usize> = if tier == Tier::Quick { vec![199, 201, 450] } else { vec![199, 200, 201, 250, 450, 1100] };
+    let caps_menu: Vec<Option<usize>> = vec![None, Some(64), Some(220)];
+    let trees: Vec<usize> = vec![1, 3];
+    let metrics: Vec<Metric> = if tier == Tier::Quick { vec![Metric::Euclidean, Metric::BqCosine] } else { M7.to_vec() };
     for metric in &metrics {
         for &dim in &dims {
             if *metric != Metric::Euclidean && dim != 2 {
@@ -290,13 +290,13 @@ pub fn c14(tier: Tier) -> i32 {
             for &n in &sizes {
                 for cap in &caps_menu {
                     for &t in &trees {
-                        for round2 in 0..(if tier == Tier::Quick { 2 } else { 3 }) {
+                        for round2 in 0..3 {
                             let items: Vec<(u32, Vec<u32>)> = (0..n).map(|i| (i as u32, lattice_vec(dim, i, 1))).collect();
                             let leaf = 1 + 4 + 4 * dim;
                             let total = n * leaf;
-                            let mut memories: Vec<Option<usize>> = vec![None, Some(0), Some(3 * page), Some(total / 2)];
+                            let mut memories: Vec<Option<usize>> = vec![None, Some(0), Some(3 * page), Some(total / 2), Some(1 << 30)];
                             if tier == Tier::Thorough {
-                                memories.extend([Some(page), Some(total), Some(1 << 30)]);
+                                memories.extend([Some(page), Some(total), Some(2 * total / 3), Some(16 * page)]);
                             }
                             let (del, add): (Vec<u32>, Vec<(u32, Vec<u32>)>) = match round2 {
                                 0 => (Vec::new(), Vec::new()),
@@ -361,9 +361,9 @@ pub fn c20(tier: Tier) -> i32 {
     let mut report = Report::new("C20", tier, "model_checking");
     report.assume("termination is decided by a poll horizon of 20000 x (items + 10) x trees cancel polls per build");
     report.assume("a worker process that dies (stack overflow, abort) is reported with the scenario it was executing");
-    let sizes: Vec<usize> = if tier == Tier::Quick { vec![1, 2, 3, 5, 17, 64, 65, 200, 201] } else { vec![1, 2, 3, 5, 17, 64, 65, 200, 201, 1000, 3000] };
+    let sizes: Vec<usize> = if tier == Tier::Quick { vec![1, 2, 3, 5, 17, 64, 65, 200, 201, 1000] } else { vec![1, 2, 3, 4, 5, 9, 17, 64, 65, 200, 201, 1000, 3000] };
     let metrics: Vec<Metric> = M7.to_vec();
-    let seeds: u64 = if tier == Tier::Quick { 1 } else { 2 };
+    let seeds: u64 = if tier == Tier::Quick { 2 } else { 3 };
     let dim = 3usize;
     let mut scenarios = Vec::new();
     for metric in &metrics {
